@@ -193,6 +193,32 @@ def run_random(shard, ctx):
                 ctx.count("note:duplicate-name-accepted")
             except ValueError:
                 ctx.count("class:lookup-after-refused-duplicate-add")
+        family = [ia]
+        if i % 6 == 4:
+            # assemblies derived from one another (the documented constructor for that is new_from_assembly),
+            # each then extended with a DIFFERENT scaffold of the same new name: lookups stay per assembly
+            from tola.assembly.assembly import Assembly
+            from tola.assembly.indexed_assembly import IndexedAssembly
+
+            try:
+                b_ = IndexedAssembly.new_from_assembly(ia)
+                c_ = IndexedAssembly.new_from_assembly(Assembly("plain", scaffolds=list(ia.scaffolds)))
+                family += [b_, c_]
+                trows = {}
+                for asm_ in family:
+                    trows[id(asm_)] = [r for r in gen_random_rows(rng, maxrows=8)]
+                    asm_.add_scaffold(build_scaffold(["t", trows[id(asm_)]]))
+                ctx.count("class:assemblies-derived-from-one-another")
+            except Exception as e:  # noqa: BLE001
+                ctx.violation(f"deriving-assembly-raised-{type(e).__name__}", f"{type(e).__name__}: {e}; rows={rows[:6]}", {"kind": "query", "rows": rows, "a": 1, "b": 1})
+                continue
+            for asm_ in family:
+                tb = [0]
+                for r in trows[id(asm_)]:
+                    tb.append(tb[-1] + (r[3] - r[2] + 1 if r[0] == "F" else r[1]))
+                for _ in range(12):
+                    a = max(1, rng.choice(tb) + rng.choice([-1, 0, 1, 2]))
+                    _query(asm_, "t", a, max(a, rng.choice(tb) + rng.choice([-1, 0, 1])), 1)
         bounds = [0]
         for r in rows:
             bounds.append(bounds[-1] + (r[3] - r[2] + 1 if r[0] == "F" else r[1]))
@@ -211,7 +237,15 @@ def run_random(shard, ctx):
             else:
                 a = rng.randint(1, max(1, total))
                 b = a
-            _query(ia, "s", a, b, rng.choice([1, -1]))
+            asm_ = rng.choice(family)
+            r1 = _query(asm_, "s", a, b, rng.choice([1, -1]))
+            if r1 is not None and r1.rows and rng.random() < 0.25:
+                # callers edit the result they were given (discards, trims); asking again must answer afresh
+                r1.rows.pop(rng.choice([0, -1]))
+                r1.start += 1
+                r1.end -= 1
+                _query(asm_, "s", a, b, 1)
+                ctx.count("class:same-query-after-editing-the-first-answer")
 
 
 def run_insitu(shard, ctx):
@@ -264,6 +298,8 @@ def gates(c, tier):
         "insitu:queries": 100,
         "class:scaffold-longer-than-2^32": 50,
         "class:lookup-after-refused-duplicate-add": 50,
+        "class:assemblies-derived-from-one-another": 50,
+        "class:same-query-after-editing-the-first-answer": 1000,
         "monitor_evals:find_overlaps": 1000,
     }
     return [f"{k}>={v} (got {c.get(k, 0)})" for k, v in need.items() if c.get(k, 0) < v]
